@@ -1,4 +1,6 @@
 """C17 — plugin chain: configured order, rejection stops the chain, startup fails closed."""
+import re
+
 from .. import common as C
 from .. import rwgen
 from . import c14
@@ -108,6 +110,45 @@ def oracle(ep, outs):
     return oracle_order(ep, outs)
 
 
+def front_episode(rng):
+    """the chain as cmd/helios composes it (buildHandler: plugins, request-context middleware, balancer)
+    with requests each rejecting plugin accepts or rejects — also requests that offer a protocol upgrade"""
+    plugins = rng.choice(["auth", "sl", "auth+sl", "sl+auth"])
+    ops = ["id new 1 - 1 - %s 0" % plugins]
+    for _ in range(rng.randint(4, 10)):
+        key = rng.choice(["k1", "k1", "bad", "-"])
+        blen = rng.choice([0, 5, 10, 11, 500])
+        ops.append("id req none none %s %d 0%s" % (key, blen, " upg" if rng.random() < 0.35 else ""))
+    return ops
+
+
+def front_oracle(ep, outs):
+    ol = C.op_lines(ep)
+    plugins = ol[0].split()[6].split("+")
+    fails = []
+    for l, o in zip(ol[1:], outs[1:]):
+        w = l.split()
+        key, blen = w[4], int(w[5])
+        want = None
+        for p in plugins:            # the first listed plugin is outermost
+            if p == "auth" and key != "k1":
+                want = "401"
+                break
+            if p == "sl" and blen > 10:
+                want = "413"
+                break
+        m = re.match(r"status=(\d+)", o)
+        if not m:
+            fails.append("exchange failed: %s -> %s" % (l, o))
+            continue
+        if want is not None and (m.group(1) != want or "/nobackend" not in o):
+            fails.append("a request the chain must reject with %s was answered %s%s (%s)" % (
+                want, m.group(1), "" if "/nobackend" in o else " and reached the backend", l))
+        if want is None and m.group(1) != "200":
+            fails.append("a request every plugin accepts was answered %s (%s)" % (m.group(1), l))
+    return fails
+
+
 def check(ctx):
     ctx.assumptions += [
         "a tracing probe plugin is registered by the harness (RegisterBuiltin) to observe entry/exit order",
@@ -123,6 +164,12 @@ def check(ctx):
             for _ in range(100 if ctx.thorough() else 20)]
     d.check(sess, oracle=lambda e, o: rwgen.session_oracle(e, o) or [], label="chain-session")
     ctx.cov["session_episodes"] = len(sess)
+    overlay = C.make_overlay(ctx, clock_pkgs=[], harness_pkgs=["cmd/helios"], hmap={"cmd/helios": "helios"})
+    hel = C.go_test_build(ctx, "cmd/helios", overlay, name="helios")
+    dfe = C.Differential(ctx, hel, timeout=600)
+    fronts = [front_episode(ctx.rng) for _ in range(300 if ctx.thorough() else 50)]
+    dfe.check(fronts, oracle=front_oracle, label="chain-front")
+    ctx.cov["front_end_episodes"] = len(fronts)
     rej = built = failed = 0
     nontriv = set()
     if bad == 0:
